@@ -1,5 +1,7 @@
 import Micm.Lemmas.Substitution
 import Micm.Spec.DenseLU
+import Micm.Lemmas.LUCell
+import Micm.Lemmas.LUCellMozart
 import Mathlib.Algebra.Field.Rat
 
 /-!
@@ -52,6 +54,52 @@ theorem C04_factor_solve (Lp Up : Pattern) (L U x : Array K) (n : Nat) (A : Nat 
   intro j hj
   rw [hLU.prod i j hi (mem_range.mp hj)]
 
+/-! ### `Factor` followed by `Solve`, for each of the four LU algorithms
+
+`a` holds `A` (pattern `A`), `b` the right-hand side; hypotheses (H1)–(H3) as in C03 and "no zero
+pivot" (the diagonal of the computed `U`). Conclusion: `A · x = b` on the block. -/
+
+theorem C04_doolittle {n : Nat} {A Lp Up : Pattern} (h : LUSetup n A Lp Up) (hn : A.n = n)
+    (hnL : Lp.n = n) (a l0 u0 b : Array K) (hLs : l0.size = Lp.nnz) (hUs : u0.size = Up.nnz)
+    (hb : b.size = n)
+    (hpiv : ∀ i, i < n → view Up (doolittleCell (doolittleRows A Lp Up) a (l0, u0)).2 i i ≠ 0) :
+    ∀ i, i < n →
+      ∑ j ∈ range n, view A a i j *
+        rd (solveCell (solverRows Lp Up).1 (solverRows Lp Up).2
+          (doolittleCell (doolittleRows A Lp Up) a (l0, u0)).1
+          (doolittleCell (doolittleRows A Lp Up) a (l0, u0)).2 b) j = rd b i :=
+  solve_of_views Lp Up _ _ b n (view A a) hnL hb (doolittleCell_view h hn a l0 u0 hLs hUs) hpiv
+
+theorem C04_mozart {n : Nat} {A Lp Up : Pattern} (h : MozSetup n A Lp Up) (hn : A.n = n)
+    (hnL : Lp.n = n) (a l0 u0 b : Array K) (hLs : l0.size = Lp.nnz) (hUs : u0.size = Up.nnz)
+    (hb : b.size = n)
+    (hpiv : ∀ i, i < n →
+      view Up (mozartCell (mozartInit A Lp Up) (mozartRows A Lp Up) a (l0, u0)).2 i i ≠ 0) :
+    ∀ i, i < n →
+      ∑ j ∈ range n, view A a i j *
+        rd (solveCell (solverRows Lp Up).1 (solverRows Lp Up).2
+          (mozartCell (mozartInit A Lp Up) (mozartRows A Lp Up) a (l0, u0)).1
+          (mozartCell (mozartInit A Lp Up) (mozartRows A Lp Up) a (l0, u0)).2 b) j = rd b i :=
+  solve_of_views Lp Up _ _ b n (view A a) hnL hb (mozartCell_view h hn a l0 u0 hLs hUs) hpiv
+
+theorem C04_doolittleInPlace {n : Nat} {P : Pattern} (h : IPSetup n P) (hn : P.n = n)
+    (m0 b : Array K) (hMs : m0.size = P.nnz) (hb : b.size = n)
+    (hpiv : ∀ i, i < n → view P (doolittleInPlaceCell (doolittleInPlaceRows P) m0) i i ≠ 0) :
+    ∀ i, i < n →
+      ∑ j ∈ range n, view P m0 i j *
+        rd (solveInPlaceCell (solverRows P P).1 (solverRows P P).2
+          (doolittleInPlaceCell (doolittleInPlaceRows P) m0) b) j = rd b i :=
+  solve_of_view_inplace P _ b n (view P m0) hn hb (doolittleInPlaceCell_view h hn m0 hMs) hpiv
+
+theorem C04_mozartInPlace {n : Nat} {P : Pattern} (h : IPSetup n P) (hn : P.n = n)
+    (m0 b : Array K) (hMs : m0.size = P.nnz) (hb : b.size = n)
+    (hpiv : ∀ i, i < n → view P (mozartInPlaceCell (mozartInPlaceRows P) m0) i i ≠ 0) :
+    ∀ i, i < n →
+      ∑ j ∈ range n, view P m0 i j *
+        rd (solveInPlaceCell (solverRows P P).1 (solverRows P P).2
+          (mozartInPlaceCell (mozartInPlaceRows P) m0) b) j = rd b i :=
+  solve_of_view_inplace P _ b n (view P m0) hn hb (mozartInPlaceCell_view h hn m0 hMs) hpiv
+
 /-! ### the hypotheses are satisfiable: a 3×3 instance with one fill-in element (2,1) -/
 
 def exLp : Pattern := Pattern.mk' 3 false 0 [(0,0),(1,0),(1,1),(2,0),(2,1),(2,2)]
@@ -66,8 +114,22 @@ example : exLp.n = 3 ∧
     (∀ i, i < 3 → ∀ j, j < 3 → j < i → view exUp exU i j = 0) := by
   decide +kernel
 
+/-- in-place instance: `M` packs `L` (strict lower) and `U`; b = (1, 2, 3) -/
+def exP : Pattern := Pattern.mk' 3 false 0 [(0,0),(0,1),(1,0),(1,1),(2,0),(2,1),(2,2)]
+def exM : Array ℚ := #[2, 1, 2, 5, 3, -1, 7]
+
+example : exP.n = 3 ∧ (∀ i, i < 3 → view exP exM i i ≠ 0) := by decide +kernel
+
+/-- and the solver really returns the solution on it: `L·U = [[2,1,0],[4,7,0],[6,-2,7]]` -/
+example : solveInPlaceCell (solverRows exP exP).1 (solverRows exP exP).2 exM #[1, 2, 3]
+    = #[1/2, 0, 0] := by decide +kernel
+
 end Micm
 
+#print axioms Micm.C04_doolittle
+#print axioms Micm.C04_mozart
+#print axioms Micm.C04_doolittleInPlace
+#print axioms Micm.C04_mozartInPlace
 #print axioms Micm.C04_solveCell
 #print axioms Micm.C04_solveInPlaceCell
 #print axioms Micm.C04_factor_solve
